@@ -169,14 +169,16 @@ def gen_decimal_block(rng, n):
         elif t == "addright":
             x = b.reg("x")
             b.add(f"bin {x} add {Bq} {A}")      # being a right operand reads the step changes
-        h = b.reg("h")
-        op = rng.choice(BINOPS_REL)
-        c = "#" + fs(rng.choice(vals))
-        x, y = rng.choice([(A, c), (A, c), (c, A), (A, Bq), (Bq, A)])
-        b.add(f"bin {h} {op} {x} {y}", focus=True)
-        b.add(f"frame {h}", focus=True)
-        xs = " ".join(fs(q) for q in b.critical())
-        b.add(f"sample {h} {xs}", focus=True)
+        own = [v for _, v in f.rows if v is not None] or vals
+        for _ in range(2):
+            h = b.reg("h")
+            op = rng.choice(BINOPS_REL + ["eq", "ne", "le", "ge"])
+            c = "#" + fs(rng.choice(own + own + vals))      # mostly a value the operand actually takes
+            x, y = rng.choice([(A, c), (A, c), (A, c), (c, A), (A, Bq), (Bq, A)])
+            b.add(f"bin {h} {op} {x} {y}", focus=True)
+            b.add(f"frame {h}", focus=True)
+            xs = " ".join(fs(q) for q in b.critical())
+            b.add(f"sample {h} {xs}", focus=True)
         b.add(f"frame {A}", focus=True)
         b.tags.update(kind="decimal", touch=t, op=op)
         progs.append(b.program())
@@ -188,7 +190,13 @@ def requery_probe(b, rng, operand, stmt_builder, p=0.15):
     layer() does not reset would answer from the past"""
     if operand.startswith("#") or rng.random() >= p:
         return
-    b.add(f"layer {operand} {fs(rng.choice([None, 1, 2, 4]))} {fs(rng.choice([None, 5, 6, 9]))} {rng.choice([1, -2, 3])}")
+    if rng.random() < 0.3:
+        # an unbounded layer after the value column has been read (a shortcut that only bumps the initial value
+        # would leave that column stale)
+        b.add(f"touch {operand} {rng.choice(['values', 'both'])}")
+        b.add(f"layer {operand} none none {rng.choice([1, -2, 3])}")
+    else:
+        b.add(f"layer {operand} {fs(rng.choice([None, 1, 2, 4]))} {fs(rng.choice([None, 5, 6, 9]))} {rng.choice([1, -2, 3])}")
     h2 = b.reg("q")
     b.add(stmt_builder(h2), focus=True)
     b.add(f"frame {h2}", focus=True)
@@ -391,7 +399,7 @@ def add_followups(b, rng, h):
     b.add(f"frame {zz}", focus=True)
 
 
-def gen_pointwise(rng, n, ops, followups=False, scalar_vals=None):
+def gen_pointwise(rng, n, ops, followups=False, scalar_vals=None, requery_p=0.12):
     """h = a op b over all operand kinds, operand orders and provenances"""
     progs = []
     for _ in range(n):
@@ -428,7 +436,7 @@ def gen_pointwise(rng, n, ops, followups=False, scalar_vals=None):
         if followups:
             add_followups(b, rng, h)
         alias_probe(b, rng, a if not a.startswith("#") else c, h, p=0.12)
-        requery_probe(b, rng, a if not a.startswith("#") else c, lambda q: f"bin {q} {op} {a} {c}", p=0.12)
+        requery_probe(b, rng, a if not a.startswith("#") else c, lambda q: f"bin {q} {op} {a} {c}", p=requery_p)
         if rng.random() < 0.5 and op != "div":
             # a stale internal form only shows downstream: feed the result to another operation
             # (not after a division: float arithmetic on non-dyadic quotients is outside the model)
